@@ -204,16 +204,27 @@ def run_cases(chk, V, phase, cases, results, with_newtype):
         texts, odd = locate(lang, impl[1], P, with_newtype)
         if odd:
             chk.count(f'{phase}_extractor_remarks')
+        # "as the model predicts" is decided per site on the printed type (the property's observation), not on the bytes of the whole file
+        mtexts = locate(lang, model[1], P, with_newtype)[0] if model[0] == 'ok' and not equal else {}
+        if not equal and model[0] == 'ok' and all(mtexts.get(w) == texts.get(w) for _, w, _, _ in sites):
+            V.corr.append(dict(base, why='every use site prints the same type as the model, but the bytes of the file differ (layout drift)'))
         js = judge_sites(lang, cfg, sites, texts)
         for (kind, where, g, t), (o, e, dom, known, good, erase) in zip(sites, js):
             chk.count(f'{phase}_site_{kind}')
             payload = dict(base, site=kind, where=list(where), generics=g, type=t, rust=T.rust_name(t), real_text=texts.get(where),
                            observed=T.show_tree(o) if o else e, expected=T.show_tree(erase), known=known, real_output=impl[1])
+            if e is not None and odd:      # the extractor left lines of the real text unread: the site cannot be located, nothing can be judged
+                chk.evaluations += 1
+                chk.unreadable(lang, payload, odd)
+                continue
             if e is not None and known is None:
                 chk.evaluations += 1
-                chk.violation(f'{phase}-{k}-{"-".join(map(str, where))}', payload, 'the type of a use site cannot be read from the real output: ' + e)
+                if False:
+                    pass
+                else:
+                    chk.violation(f'{phase}-{k}-{"-".join(map(str, where))}', payload, 'the type of a use site cannot be read from the real output: ' + e)
                 continue
-            V.case(f'{phase}-{k}-{"-".join(map(str, where))}', payload, good, equal, known,
+            V.case(f'{phase}-{k}-{"-".join(map(str, where))}', payload, good, equal or (where in mtexts and mtexts.get(where) == texts.get(where)), known,
                    (phase, lang, kind, T.rust_name(t), tuple(g), json.dumps(cfg, sort_keys=True)) if T.depth(t) >= 2 else None)
         if k % 97 == 0:
             chk.sample({'phase': phase, 'lang': lang, 'cfg': cfg, 'sites': [(kind, T.rust_name(t), texts.get(where)) for kind, where, g, t in sites][:6]})
